@@ -7,47 +7,52 @@ set_option linter.unusedSimpArgs false
 namespace SigModel.Lemmas.C11.ReadOne
 open SigModel.Conc.ReadOne
 
-/-- between a check that answered "unrotated" and its look-up the key is still in the unrotated map; a
-finished read has read the segment -/
-def Good (s : RSt) : Prop :=
+/-- the repaired reader: a finished read has read the segment, from the unrotated entry or from the rotated
+metadata; nothing is skipped, nothing crashes -/
+def GoodReal (s : RSt) : Prop :=
+  (s.pc = .done → (s.outcome = some .readUnrotated ∨ s.outcome = some .readRotated)) ∧
+  (s.pc ≠ .done → s.outcome = none)
+
+theorem goodReal_init : GoodReal {} := by
+  simp [GoodReal]
+
+theorem goodReal_step (s : RSt) (l : RLabel) (h : GoodReal s) : GoodReal (rstep .real s l) := by
+  obtain ⟨rot, pc, out⟩ := s
+  cases l <;> cases rot <;> cases pc <;>
+    simp_all [GoodReal, rstep, readStep, RotPc.next, RotPc.inUnrot, RotPc.inRot]
+
+theorem goodReal_run (ls : List RLabel) (s : RSt) (h : GoodReal s) : GoodReal (rrun .real s ls) := by
+  induction ls generalizing s with
+  | nil => exact h
+  | cons l ls ih => exact ih _ (goodReal_step s l h)
+
+/-- the old reader under the schedule guard: between a check that answered "unrotated" and its look-up the key
+is still in the unrotated map; a finished read has read the segment -/
+def GoodOld (s : RSt) : Prop :=
   ((s.pc = .lookupSsr ∨ s.pc = .lookupReader) → s.rot.inUnrot = true) ∧
   (s.pc = .done → (s.outcome = some .readUnrotated ∨ s.outcome = some .readRotated)) ∧
   (s.pc ≠ .done → s.outcome = none)
 
-theorem good_init : Good {} := by
-  simp [Good]
+theorem goodOld_init : GoodOld {} := by
+  simp [GoodOld]
 
-theorem good_step (s : RSt) (l : RLabel) (ls : List RLabel) (h : Good s)
+theorem goodOld_step (s : RSt) (l : RLabel) (ls : List RLabel) (h : GoodOld s)
     (hg : noRemoveInWindow s (l :: ls) = true) :
-    Good (rstep false s l) ∧ noRemoveInWindow (rstep false s l) ls = true := by
+    GoodOld (rstep .old s l) ∧ noRemoveInWindow (rstep .old s l) ls = true := by
   obtain ⟨rot, pc, out⟩ := s
   simp only [noRemoveInWindow, Bool.and_eq_true] at hg
   refine ⟨?_, hg.2⟩
   have hg1 := hg.1
   clear hg
   cases l <;> cases rot <;> cases pc <;>
-    simp_all [Good, rstep, readStep, RotPc.next, RotPc.inUnrot, RotPc.inRot]
+    simp_all [GoodOld, rstep, readStep, RotPc.next, RotPc.inUnrot, RotPc.inRot]
 
-theorem good_run (ls : List RLabel) (s : RSt) (h : Good s) (hg : noRemoveInWindow s ls = true) :
-    Good (rrun false s ls) := by
+theorem goodOld_run (ls : List RLabel) (s : RSt) (h : GoodOld s) (hg : noRemoveInWindow s ls = true) :
+    GoodOld (rrun .old s ls) := by
   induction ls generalizing s with
   | nil => exact h
   | cons l ls ih =>
-    obtain ⟨h1, h2⟩ := good_step s l ls h hg
+    obtain ⟨h1, h2⟩ := goodOld_step s l ls h hg
     exact ih _ h1 h2
-
-/-- the repaired reader: never between a check and its look-up, never skipped or crashed -/
-def GoodAtomic (s : RSt) : Prop :=
-  s.pc ≠ .lookupSsr ∧ s.pc ≠ .lookupReader ∧ s.outcome ≠ some .skipped ∧ s.outcome ≠ some .crashed
-
-theorem goodAtomic_step (s : RSt) (l : RLabel) (h : GoodAtomic s) : GoodAtomic (rstep true s l) := by
-  obtain ⟨rot, pc, out⟩ := s
-  cases l <;> cases rot <;> cases pc <;>
-    simp_all [GoodAtomic, rstep, readStep, RotPc.next, RotPc.inUnrot, RotPc.inRot]
-
-theorem goodAtomic_run (ls : List RLabel) (s : RSt) (h : GoodAtomic s) : GoodAtomic (rrun true s ls) := by
-  induction ls generalizing s with
-  | nil => exact h
-  | cons l ls ih => exact ih _ (goodAtomic_step s l h)
 
 end SigModel.Lemmas.C11.ReadOne
